@@ -541,7 +541,7 @@ Theorem escape_cdata_wellformed : forall s, zin c_lt (escape_cdata s) = false.
 Proof. intro s. rewrite escape_cdata_eq. apply zin_flat_map. apply cd_f_no_lt. Qed.
 
 (* ---------------------------------------------------------------------- *)
-(* The general statement, without any hypothesis: what comes back is the    *)
+(* The general, unconditional statement: what comes back is the           *)
 (* end-of-line normalised text, and whitespace normalisation cannot tell    *)
 (* the difference.                                                          *)
 (* ---------------------------------------------------------------------- *)
